@@ -127,10 +127,14 @@ Init == /\ bal = [a \in Acct |-> 0] /\ supply = 0 /\ units = [a \in Acct |-> 0]
         /\ deleg = [a \in Acct |-> NoOne] /\ cp = [a \in Acct |-> <<>>] /\ cpT = <<>>
         /\ now = Now0 /\ g = GInit("fungible", Acct) /\ viol = {} /\ hist = <<>>
 
+\* The event is bound by a quantifier over a singleton so that TLC evaluates it (and the
+\* whole observation) once, after the primed implementation state has been determined.
 Step(o, dt) ==
   LET t  == now + dt
       ok == ImplOk(o, t)
-      ev == [op |-> o, now |-> t, res |-> IF ok THEN "ok" ELSE "fail",
+  IN /\ now' = t
+     /\ IF ok THEN ImplEffect(o, t) ELSE UNCHANGED impl
+     /\ \E ev \in {[op |-> o, now |-> t, res |-> IF ok THEN "ok" ELSE "fail",
              obs |-> [bal |-> bal', supply |-> supply', units |-> units', deleg |-> deleg',
                       votes |-> [a \in Acct |-> LastV(cp'[a])], total |-> LastV(cpT'),
                       past |-> [i \in 1..t |-> [l |-> i - 1,
@@ -140,13 +144,11 @@ Step(o, dt) ==
                                  [l |-> t + i - 1,
                                   v |-> IF \A a \in Acct : QueryAt(cp'[a], t + i - 1, t) = -1 THEN "fail" ELSE "ok",
                                   t |-> IF QueryAt(cpT', t + i - 1, t) = -1 THEN "fail" ELSE "ok"]],
-                      futmax |-> [v |-> "fail", t |-> "fail"]]]
-  IN /\ now' = t
-     /\ IF ok THEN ImplEffect(o, t) ELSE UNCHANGED impl
-     /\ g' = GNext(g, ev)
-     /\ viol' = viol \cup {<<m, Key(m, g, ev)>> : m \in Failing(g, ev)}
-     /\ hist' = Append(hist, [op |-> o.op, from |-> o.from, to |-> o.to, by |-> o.by, amt |-> o.amt,
-                              auth |-> o.auth, dt |-> dt, exp |-> ev.res])
+                      futmax |-> [v |-> "fail", t |-> "fail"]]]} :
+          /\ g' = GNext(g, ev)
+          /\ viol' = viol \cup {<<m, Key(m, g, ev)>> : m \in FailingX(g, g', ev)}
+          /\ hist' = Append(hist, [op |-> o.op, from |-> o.from, to |-> o.to, by |-> o.by, amt |-> o.amt,
+                                   auth |-> o.auth, dt |-> dt, exp |-> ev.res])
 
 Next == \E dt \in DTs : \E o \in AllOps : Step(o, dt)
 
